@@ -31,7 +31,7 @@ func TestVerif(t *testing.T) {
 		ID:    "C03",
 		Level: "model_checking",
 		Rule: "scenario = DAG (curated family + a referrer whose subject is a layer blob + indexes (one listing the node, one naming it as subject) that carry the filtered annotation + one wide shape with 70 referrers of one manifest (default filter, Depth 0-1, four source kinds) + every U(4) shape with a subject or index) x start node x Depth 0..3 x filter (none | artifact-type regex per type present / no match / all | " +
-			"annotation key, value regex) x source kind (memory with plain descriptors, memory with rich descriptors, OCI layout written then reopened read-write / fs.FS / tar, file store, remote Repository via Referrers API / via tag schema) x API; " +
+			"annotation key, value regex | two chained annotation filters) x source kind (memory with plain descriptors, memory with rich descriptors, OCI layout written then reopened read-write / fs.FS / tar, file store, remote Repository via Referrers API / via tag schema) x API; " +
 			"for the curated shapes on the plain memory source with Depth <= 1 additionally: x one node whose content the source lost (its Fetch answers not-found), every node in turn - a failed call is not judged, a successful one by the same oracle; " +
 			"ExtendedCopy without filter is also run into a destination that already holds every node (the given node must still be tagged); " +
 			"default schedule for the sweep, every schedule within D<=2 (map-order deviations O<=1 at the roots map) for multi-root shapes. Oracle: generator's inverse edge list. " +
@@ -112,6 +112,8 @@ func filtersFor(d *DAG) []filter {
 	// unanchored literals: a regular expression without metacharacters still matches substrings
 	out = append(out, filter{kind: "type", re: "sig"}, filter{kind: "type", re: "vnd"})
 	out = append(out, filter{kind: "ann", key: "k"}, filter{kind: "ann", key: "k", re: "^v1$"}, filter{kind: "ann", key: "absent"})
+	// two annotation filters chained on one options value: a predecessor is followed when it satisfies both
+	out = append(out, filter{kind: "ann2", key: "k", re: "other"}, filter{kind: "ann2", key: "other", re: "k"})
 	return out
 }
 
@@ -366,6 +368,10 @@ func (s scen) pass(id int) bool {
 	case "ann":
 		v, ok := d.Nodes[id].Annotations[s.f.key]
 		return ok && (s.f.re == "" || regexp.MustCompile(s.f.re).MatchString(v))
+	case "ann2": // key and re name the two annotation keys, in the order the filters are installed
+		_, ok1 := d.Nodes[id].Annotations[s.f.key]
+		_, ok2 := d.Nodes[id].Annotations[s.f.re]
+		return ok1 && ok2
 	}
 	return true
 }
@@ -391,6 +397,9 @@ func (s scen) make() (func(), func(*vs.Result) *driver.Fail) {
 	switch s.f.kind {
 	case "type":
 		opts.FilterArtifactType(regexp.MustCompile(s.f.re))
+	case "ann2":
+		opts.FilterAnnotation(s.f.key, nil)
+		opts.FilterAnnotation(s.f.re, nil)
 	case "ann":
 		var re *regexp.Regexp
 		if s.f.re != "" {
